@@ -29,6 +29,20 @@ FLAVOURS = {
     },
 }
 
+import os as _os
+_SHIM = _os.path.join(_os.path.dirname(_os.path.dirname(_os.path.abspath(__file__))), 'engine', 'sched', 'shim.hpp')
+FLAVOURS['tsan'] = {
+    'cxx': 'clang++',
+    # every translation unit (repository sources and harness) is compiled behind the force-included shim
+    'flags': COMMON + ['-O1', '-g', '-fsanitize=thread', '-fno-omit-frame-pointer', '-Wno-unknown-warning-option',
+                       '-Wno-unused-private-field', '-Wno-keyword-macro', '-include', _SHIM],
+    'harness_flags': ['-fno-access-control'],
+    'link_flags': ['-fsanitize=thread'],
+    'libs': ['-lpthread'],
+    'env': {'TSAN_OPTIONS': 'suppress_equal_stacks=0:suppress_equal_addresses=0:exitcode=0:report_signal_unsafe=0:'
+                            'history_size=2:log_path={RDIR}/tsan'},
+}
+
 GEODESY = ['src/geodesy/ECEFConverter.cpp', 'src/geodesy/EarthEllipsoid.cpp', 'src/geodesy/GeodeticCoordinates.cpp',
            'src/geodesy/WGS84Coordinates.cpp']
 
@@ -437,6 +451,34 @@ PROPS = {
         'level_text': 'complete enumeration of a displacement lattice that covers the whole operating envelope including its '
                       'corners, and of an outlier-configuration lattice, on freshly constructed estimators',
         'level_note': 'lattice values only; one scan',
+    },
+    'C19': {
+        'sources': ['src/monitoring/OnlineAverage.cpp', 'src/monitoring/OnlineVariance.cpp', 'src/monitoring/RateMonitoring.cpp',
+                    'src/diagnostics/CheckupRate.cpp', 'src/diagnostics/CheckupReliability.cpp', 'src/diagnostics/Diagnostic.cpp',
+                    'src/diagnostics/DiagnosticReport.cpp', 'src/diagnostics/DiagnosticStatus.cpp'],
+        'harness': 'c19_concurrency.cpp',
+        'flavour': 'tsan',
+        'extra_units': [('gcc', ['-O1', '-g', '-std=gnu11'], 'engine/sched/sched.c')],
+        'level': 'model_checking',
+        'engine': 'schedule',
+        'rule': 'for each of 10 scenarios (2-4 real threads x 1-4 operations on one real object) every schedule with at most '
+                'b preemptions (b = 2 quick, 3 thorough) is executed under a serialising scheduler whose scheduling points '
+                'are the mutex and atomic operations of the unmodified library code; per schedule: ThreadSanitizer '
+                'happens-before reports, deadlock, linearizability against the object itself run sequentially. '
+                'evaluations = executions; states = distinct observed outcomes (result vectors) summed over scenarios; '
+                'transitions = scheduling decisions taken; traces_validated_against_impl = executions (every explored '
+                'trace is an implementation trace). non-trivial = schedule with at least one preemption. Plus a '
+                'free-running ThreadSanitizer pass of the same thread bodies.',
+        'assumptions': ['sequentially consistent interleavings only (no weak-memory reorderings of the atomic<double> accesses)',
+                        'scheduling points at synchronisation operations only; unsynchronised accesses are covered by ThreadSanitizer happens-before analysis in every explored schedule and in the free-running pass',
+                        'bounded harnesses (2-4 threads, 1-4 operations each) replace the 1e5-operation stress runs of the quantifier, which would be sampling'],
+        'tiers': {'quick': {'deadline': 500, 'case_timeout': 400, 'jobs': 12}, 'thorough': {'deadline': 3300, 'case_timeout': 3000, 'jobs': 12}},
+        'technique': 'preemption-bounded stateless model checking of the real threads (serialising scheduler hooked at mutex/atomic operations, DFS with prefix replay), ThreadSanitizer + linearizability oracle per schedule',
+        'level_text': 'every schedule with <= 2 (thorough 3) preemptions of each scenario is executed on the real code; a data '
+                      'race anywhere in such a schedule is reported by ThreadSanitizer, whose view of synchronisation is '
+                      'only the library own mutexes and atomics; every recorded history is checked for linearizability by '
+                      'brute force against the sequential object',
+        'level_note': 'small closed harnesses; SC memory model; preemption bound as stated',
     },
 }
 
